@@ -107,3 +107,51 @@ package server
 //@   at SaveServiceGCSafePoint 1 assert [identity] ssp.SafePoint == request.SafePoint && ssp.ServiceID == str(request.ServiceId)
 //@   at SaveServiceGCSafePoint 1 assert [expiry-saturates] unixsec(now) >= 0 ==> ssp.ExpiredAt == ite(unixsec(now) + request.TTL >= MaxInt64, MaxInt64, unixsec(now) + request.TTL)
 //@   modifies *
+
+// ---- C18: dynamic configuration changes are validated, atomic and durable ----
+// A rejected change (invalid value or storage failure) leaves every served section exactly as it was
+// (same stored object); an accepted change serves the validated copy and has been written to storage.
+//@ pure served(s *Server) = s.persistOptions
+
+//@ func (*Server).SetScheduleConfig
+//@   props C18
+//@   requires optsTyped(s.persistOptions) && s.storage != nil
+//@   ensures [rollback] result != nil ==> s.persistOptions.schedule.v == old(s.persistOptions.schedule.v)
+//@   ensures [invalid-rejected] !(cfg.TolerantSizeRatio >= 0 && 0 <= cfg.LowSpaceRatio && cfg.LowSpaceRatio <= 1 && 0 <= cfg.HighSpaceRatio && cfg.HighSpaceRatio <= 1 && cfg.LowSpaceRatio > cfg.HighSpaceRatio) ==> result != nil
+//@   ensures [accepted] result == nil ==> typeisptr(s.persistOptions.schedule.v, config.ScheduleConfig) && scheduleDomains(asptr(s.persistOptions.schedule.v, config.ScheduleConfig)) && asptr(s.persistOptions.schedule.v, config.ScheduleConfig).LowSpaceRatio == cfg.LowSpaceRatio && asptr(s.persistOptions.schedule.v, config.ScheduleConfig).MaxSnapshotCount == cfg.MaxSnapshotCount && asptr(s.persistOptions.schedule.v, config.ScheduleConfig).LeaderScheduleLimit == cfg.LeaderScheduleLimit
+//@   ensures [accepted-persisted] result == nil ==> last("kvSave") > old(evclock[0])
+//@   modifies s.persistOptions.schedule.v, ghost kvhas, ghost kvval
+
+//@ func (*Server).SetPDServerConfig
+//@   props C18
+//@   requires optsTyped(s.persistOptions) && s.storage != nil
+//@   ensures [rollback] result != nil ==> s.persistOptions.pdServerConfig.v == old(s.persistOptions.pdServerConfig.v)
+//@   ensures [accepted] result == nil ==> typeisptr(s.persistOptions.pdServerConfig.v, config.PDServerConfig) && asptr(s.persistOptions.pdServerConfig.v, config.PDServerConfig).FlowRoundByDigit >= 0 && asptr(s.persistOptions.pdServerConfig.v, config.PDServerConfig).FlowRoundByDigit == cfg.FlowRoundByDigit
+//@   ensures [accepted-persisted] result == nil ==> last("kvSave") > old(evclock[0])
+//@   modifies s.persistOptions.pdServerConfig.v, ghost kvhas, ghost kvval
+
+//@ func (*Server).SetLabelPropertyConfig
+//@   props C18
+//@   requires optsTyped(s.persistOptions) && s.storage != nil
+//@   ensures [rollback] result != nil ==> s.persistOptions.labelProperty.v == old(s.persistOptions.labelProperty.v)
+//@   ensures [accepted-persisted] result == nil ==> last("kvSave") > old(evclock[0])
+//@   modifies s.persistOptions.labelProperty.v, ghost kvhas, ghost kvval
+
+//@ func (*Server).SetLabelProperty
+//@   props C18
+//@   requires optsTyped(s.persistOptions) && s.storage != nil
+//@   ensures [rollback] result != nil ==> s.persistOptions.labelProperty.v == old(s.persistOptions.labelProperty.v)
+//@   modifies s.persistOptions.labelProperty.v, ghost kvhas, ghost kvval
+
+//@ func (*Server).DeleteLabelProperty
+//@   props C18
+//@   requires optsTyped(s.persistOptions) && s.storage != nil
+//@   ensures [rollback] result != nil ==> s.persistOptions.labelProperty.v == old(s.persistOptions.labelProperty.v)
+//@   modifies s.persistOptions.labelProperty.v, ghost kvhas, ghost kvval
+
+//@ func (*Server).SetClusterVersion
+//@   props C18
+//@   requires optsTyped(s.persistOptions) && s.storage != nil
+//@   ensures [rollback] result != nil ==> s.persistOptions.clusterVersion == old(s.persistOptions.clusterVersion)
+//@   ensures [accepted-persisted] result == nil ==> last("kvSave") > old(evclock[0])
+//@   modifies s.persistOptions.clusterVersion, ghost kvhas, ghost kvval
